@@ -204,6 +204,7 @@ def predict(prog, case, model, script):
     from . import steplib
     M = Machine(prog, timeout_ms=20000)
     M.env['select_start'] = 0
+    M.env['verify'] = lambda M_, pw, hs: M_.values_equal(pw, hs)
     spec = Spec(**case.get('spec', {}))
     w = World(M, prog, spec, fixed=model)
     conns = {}
